@@ -107,3 +107,9 @@ package method_evaluator
 //@   inline 10 2
 //@   mapwrite[C24] base.MethodCallPoint ctx.round == "check" && key == evaluatedObjectT.GetFrame() + evaluatedObjectT.GetObjectClass() + methodIdentifierT.ToString()
 //@   mapwrite[C24] base.MethodCalleePoint ctx.round == "check" && key == ctx.frame + ctx.class + ctx.method
+//@   # and every evaluated call of the check round is recorded, exactly once in each table, with the
+//@   # row of the call and the enclosing method/class (whatever kind of method token it is)
+//@   ensures[C24] ctx.round == "check" ==> mapwrites(base.MethodCallPoint) == 1 && mapwrites(base.MethodCalleePoint) == 1
+//@   ensures[C24] ctx.round != "check" ==> mapwrites(base.MethodCallPoint) == 0 && mapwrites(base.MethodCalleePoint) == 0
+//@   mapwrite[C24] base.MethodCallPoint value[len(value)-1].Point == p.FileName + ":" + strconv.Itoa(p.Row)
+//@   mapwrite[C24] base.MethodCallPoint value[len(value)-1].CallerFrame == ctx.frame && value[len(value)-1].CallerClass == ctx.class && value[len(value)-1].CallerMethod == ctx.method
